@@ -328,3 +328,64 @@ CHECKS["C05"] = dict(
     replay=replay_index("c05"),
     require=dict(events_checked=10000, step_Output=50, concurrent_events_checked=500),
 )
+
+
+def _diode_stages(cmd):
+    def f(tier):
+        return [dict(variant="vh", cmd=cmd, shards=16, timeout=3400),
+                dict(variant="vh-race", cmd=cmd, shards=8, timeout=3400, race=True)]
+    return f
+
+
+_DIODE_COMMON = ("seeded noisy runs (P 1-4/8 producers x 1-6 writes, ring size in {1,2,3,4,8}, waiter and poller mode, payloads crossing the 500 B and 64 KiB "
+                 "pool thresholds, Gosched/sleep noise injected at the verif-tagged hook points before/after every atomic, mutex/cond and context "
+                 "operation of diode/internal/diodes), a systematic sweep pausing the k-th arrival (k<=3) at every hook point until the other side made a "
+                 "step, and directed scenarios; under the race detector half of the noisy runs are executed with the hook silent so that the hook's own "
+                 "mutex adds no happens-before edges. Evidence reports distinct hook-event interleavings and how often each named window occurred.")
+
+CHECKS["C10"] = dict(
+    level="exploration",
+    level_text=("runtime monitor over recorded histories: " + _DIODE_COMMON + " Oracles: every Write returns while the wrapped writer is blocked "
+                "(join, else goroutine-state oracle); each delivered buffer is byte-identical (crc + length) to exactly one Write argument, unchanged "
+                "during the wrapped Write, never delivered twice, one delivery in flight at a time; the delivery order is checked exactly against the "
+                "lossy-FIFO specification via the interval-order criterion, with porcupine as a second opinion on histories of <= 20 operations; "
+                "sum(alerts) <= ring positions claimed; race detector."),
+    technique="runtime monitoring: hook-injected noise/pauses, recorded call/return and delivery histories, interval-order linearizability test + porcupine, race detector",
+    stages=_diode_stages("c10"),
+    rule=("one case = one diode run; non-trivial = more than one producer or at least one named window observed; distinct_nontrivial = distinct "
+          "hashes of the (point) event sequence of the run"),
+    assumptions=["exhaustive enumeration of schedules at atomic-operation granularity is NOT delivered (that is model checking); reach comes from seeded "
+                 "noise, the single-pause sweep, real parallelism and the race detector",
+                 "which messages are dropped when the ring is lapped is not constrained"],
+    require=dict(noisy_runs=500, hook_events=10000),
+)
+
+CHECKS["C11"] = dict(
+    level="exploration",
+    level_text=("conservation monitor over the same kind of runs: " + _DIODE_COMMON + " After every Write and Close returned: messages whose Write "
+                "returned before Close was called and that were not delivered must be covered by the alerter's counts; delivered + reported == written "
+                "whenever the number of claimed ring positions equals the number of Writes; no drop at all while fewer than ring-size messages were "
+                "outstanding on the logical clock; directed drain-race / lost-CAS hole / first-lap overtake scenarios in both modes; the Fatal path is "
+                "observed in child processes through five writer wrappings."),
+    technique="runtime monitoring: conservation accounting (written = delivered + reported) over hook-instrumented noisy/directed runs, child-process Fatal path",
+    stages=_diode_stages("c11"),
+    rule=("one case = one diode run (Close is called right after the producers return in half of the noisy runs); non-trivial as for C10; "
+          "distinct_nontrivial = distinct event-sequence hashes"),
+    assumptions=["same reach limits as C10", "reported counts may exceed the number of lost messages when positions were retried (the statement allows >=)"],
+    require=dict(noisy_runs=500, runs_without_retry=100, runs_below_capacity=50, fatal_path_cases=20),
+)
+
+CHECKS["C12"] = dict(
+    level="exploration",
+    level_text=("bounded-progress monitor with a stuck-state oracle: " + _DIODE_COMMON + " After all Writes returned and with no further Write or "
+                "Close, either the consumer passes the last claimed ring position, or a stable blocked state is observed: the consumer goroutine parked "
+                "in sync.Cond.Wait (from runtime.Stack), or >= 1000 empty polling steps without progress in poller mode, while claimed positions remain "
+                "- that is the violation; Close must return (else Close parked on done with the consumer parked). Wall-clock limits only produce "
+                "'inconclusive'. The lost wake-up of Waiter.Set (broadcast without the mutex) is a recorded known finding; every other stall raises."),
+    technique="runtime monitoring: goroutine wait-state oracle + hook counters for bounded progress, directed lost-wake-up / cancel / hole scenarios",
+    stages=_diode_stages("c12"),
+    rule=("one case = one diode run judged at quiescence and again at Close; non-trivial as for C10; distinct_nontrivial = distinct event-sequence hashes"),
+    assumptions=["'eventually delivered' is restated as: after quiescence the consumer reaches every claimed position or is observed in a state only a new "
+                 "event could end", "same reach limits as C10"],
+    require=dict(noisy_runs=500, runs_reaching_quiescence_with_full_progress=300, directed_windows_reached=5),
+)
